@@ -19,7 +19,7 @@
 (*             C03 (SroValid, SroIsC3, StrictIff),                         *)
 (*             C15 (MemoSound, AccessorsAgree).                            *)
 (***************************************************************************)
-EXTENDS Integers, Sequences, FiniteSets, TLC
+EXTENDS C3Ops, TLC
 
 CONSTANTS N,          \* non-root specifications are 1..N ; 0 is Interface
           IsIface,    \* [1..N -> BOOLEAN]  interface or declaration-like
@@ -41,24 +41,13 @@ VARIABLES bases,      \* [0..N -> Seq(0..N)]   Specification._bases
 
 vars == <<bases, sro, implied, deps, memo, defA>>
 
-Root == 0
 Nodes == 1..N
 AllNodes == 0..N
-FAIL == <<-1>>
 NoOwner == -1
-
-SeqSet(s) == {s[i] : i \in DOMAIN s}
-Min(S) == CHOOSE x \in S : \A y \in S : x <= y
-IndexOf(s, x) == Min({i \in DOMAIN s : s[i] = x})
-Without(s, x) == SelectSeq(s, LAMBDA y : y # x)
-NoDup(s) == \A i, j \in DOMAIN s : i # j => s[i] # s[j]
 
 (***************************************************************************)
 (* Declarative side                                                        *)
 (***************************************************************************)
-RECURSIVE ReachSet(_, _)
-ReachSet(b, n) == {n} \cup UNION {ReachSet(b, b[n][i]) : i \in DOMAIN b[n]}
-
 Acyclic(b) ==
     \* no node reaches itself through at least one base edge
     \A n \in AllNodes :
@@ -66,35 +55,6 @@ Acyclic(b) ==
             Up(S, k) == IF k = 0 THEN S
                         ELSE Up(S \cup UNION {SeqSet(b[m]) : m \in S}, k - 1)
         IN n \notin Up(SeqSet(b[n]), N + 1)
-
-\* Everything without an explicit base ultimately derives from Interface.
-EffBases(b, n) == IF n = Root THEN <<>>
-                  ELSE IF b[n] = <<>> THEN <<Root>> ELSE b[n]
-
-InTail(x, s) == \E i \in DOMAIN s : i > 1 /\ s[i] = x
-
-\* The C3 merge of a sequence of sequences; FAIL when no head is admissible.
-RECURSIVE MergeC3(_)
-MergeC3(seqs) ==
-    LET ne == SelectSeq(seqs, LAMBDA s : s # <<>>)
-    IN IF ne = <<>> THEN <<>>
-       ELSE LET cands == {i \in DOMAIN ne :
-                            \A j \in DOMAIN ne : ~InTail(Head(ne[i]), ne[j])}
-            IN IF cands = {} THEN FAIL
-               ELSE LET h == Head(ne[Min(cands)])
-                        rest == MergeC3([j \in DOMAIN ne |-> Without(ne[j], h)])
-                    IN IF rest = FAIL THEN FAIL ELSE <<h>> \o rest
-
-\* C3 linearisation as a function of the (effective) ordered DAG only.
-RECURSIVE C3(_, _)
-C3(b, n) ==
-    LET eb == EffBases(b, n)
-        lins == [i \in DOMAIN eb |-> C3(b, eb[i])]
-    IN IF \E i \in DOMAIN lins : lins[i] = FAIL THEN FAIL
-       ELSE LET m == MergeC3(lins \o <<eb>>)
-            IN IF m = FAIL THEN FAIL ELSE <<n>> \o m
-
-HierConsistent(b, n) == C3(b, n) # FAIL
 
 \* s is a valid linearisation of n's ancestry under b.
 ValidLin(b, n, s) ==
